@@ -3,7 +3,6 @@
 use serde_json::{json, Map, Value};
 use std::cell::RefCell;
 use std::collections::{BTreeMap, BTreeSet, HashSet};
-use std::io::Write;
 use std::path::PathBuf;
 use std::time::Instant;
 
